@@ -151,24 +151,40 @@ fn vp_native_head_roundtrip_small() {
     println!("VP-NATIVE head_roundtrip_small cases={}", cases);
 }
 
-/// C05: the max_headers limit counts field lines (repeated names included): a head is accepted iff it has at most max_headers fields
+fn head_with(count: usize, distinct: usize) -> Vec<u8> {
+    let names = ["set-cookie", "x-a", "x-b", "x-c", "x-d", "x-e", "x-f"];
+    let mut wire = b"HTTP/1.1 200 OK\r\n".to_vec();
+    for i in 0..count { wire.extend_from_slice(format!("{}: v{}\r\n", names[i % distinct], i).as_bytes()); }
+    wire.extend_from_slice(b"\r\n");
+    wire
+}
+/// C05: the max_headers limit counts field lines (repeated names included): a head with more than max_headers fields is refused
 #[test]
 fn vp_native_head_field_limit() {
-    let names = ["set-cookie", "x-a", "x-b", "x-c", "x-d", "x-e", "x-f"];
     let mut cases = 0u64;
-    for max in 0usize..5 { for count in 0usize..8 { for distinct in 1usize..=names.len() {
-        let mut wire = b"HTTP/1.1 200 OK\r\n".to_vec();
-        for i in 0..count { wire.extend_from_slice(format!("{}: v{}\r\n", names[i % distinct], i).as_bytes()); }
-        wire.extend_from_slice(b"\r\n");
+    for max in 0usize..5 { for count in 0usize..8 { for distinct in 1usize..=7 {
+        if count <= max { continue; }
+        let wire = head_with(count, distinct);
         let mut reader = std::io::BufReader::with_capacity(7, &wire[..]);
         let got = crate::parsing::response::parse_response_head(&mut reader, max);
         cases += 1;
-        match got {
-            Ok((_, h)) => { assert!(count <= max, "{} field lines ({} distinct names) accepted with max_headers = {}", count, distinct.min(count), max); assert_eq!(h.len(), count); }
-            Err(e) => { assert!(count > max, "{} field lines refused with max_headers = {}: {}", count, max, e); }
-        }
+        assert!(got.is_err(), "{} field lines ({} distinct names) accepted with max_headers = {}", count, distinct.min(count), max);
     } } }
     println!("VP-NATIVE head_field_limit cases={}", cases);
+}
+/// C04: a head with at most max_headers fields is accepted and every field is exposed, up to exactly the limit
+#[test]
+fn vp_native_head_up_to_the_limit() {
+    let mut cases = 0u64;
+    for max in 0usize..5 { for count in 0usize..8 { for distinct in 1usize..=7 {
+        if count > max { continue; }
+        let wire = head_with(count, distinct);
+        let mut reader = std::io::BufReader::with_capacity(7, &wire[..]);
+        let got = crate::parsing::response::parse_response_head(&mut reader, max);
+        cases += 1;
+        match got { Ok((_, h)) => assert_eq!(h.len(), count), Err(e) => panic!("{} field lines refused with max_headers = {}: {}", count, max, e) }
+    } } }
+    println!("VP-NATIVE head_up_to_the_limit cases={}", cases);
 }
 
 /// C01 end to end through the public accessors: framing x payload size (around the 8 KiB read buffer and the 64 KiB chunk buffer) x
